@@ -19,7 +19,8 @@ RULE = ('E1 enumeration of macrobody cards (kind x parameter/orientation/handedn
 ASSUMPTIONS = [
     'macrobody definitions and facet numbering of the MCNP manual (BOX RPP SPH RCC RHP/HEX REC TRC ELL WED ARB)',
     'ELL with positive last entry follows the empirical MCNP rule documented in MacroBodies.ell',
-    'facets 3-6 of a 9-entry RHP are not probed (rotation sense of the implied vectors is not stated by the manual)',
+    '9-entry RHP/HEX: the implied vectors s and t are r turned by +60 and +120 degrees about h (right-hand rule), '
+    'so that facets 3-6 follow counter-clockwise seen from the tip of h',
 ]
 
 LAT = geomdecide.lattice_points(-7.0, 7.0, 11)
@@ -94,7 +95,7 @@ def body_rhp(v, h, r, s=None, t=None):
         R1 = refsem.rotation(h, 60.0); R2 = refsem.rotation(h, 120.0)
         s_, t_ = R1 @ r, R2 @ r
         card = 'rhp ' + nums(v, h, r)
-        probe = [1, 2, 7, 8]
+        probe = None
     else:
         s_, t_ = np.asarray(s, float), np.asarray(t, float)
         card = 'rhp ' + nums(v, h, r, s_, t_)
